@@ -73,4 +73,5 @@ def main() -> None:
                "each case = (configuration, statement set); compared as sets with rdflib's own term normalisation as the expectation")
 
 if __name__ == "__main__":
-    main()
+    from common import run_main
+    run_main(main, "C02")
